@@ -455,7 +455,11 @@ def write_workbook(case, rows=None):
         for r in data:
             ws.append(list(r))
 
-    decoy_rows = [['DECOY' for _ in headers], ['DECOY' for _ in headers]]
+    # a decoy sheet is a well-formed sheet with other numbers and one more row than the real one
+    real = case['rows'] if rows is None else rows
+    first = real[0] if real else [None] * len(headers)
+    decoy_rows = [[(c + 1000 if isinstance(c, (int, float)) else c) for c in first]
+                  for _ in range(len(real) + 1)]
     if case.get('decoy') == 'before':
         fill(wb.create_sheet('decoy'), decoy_rows)
     fill(wb.create_sheet(case['sheet'] or 'Sheet1'), case['rows'] if rows is None else rows)
